@@ -3,6 +3,7 @@ package main
 import (
 	"encoding/json"
 	"fmt"
+	"math"
 	"math/big"
 	"runtime/debug"
 	"strings"
@@ -116,8 +117,13 @@ func gridZoo() []SetChoice {
 			bases []int
 		}
 		kinds := []kind{
-			{"rd", func() grid.Spec { return grid.Spec{Name: "NetherlandsRDNewQuad", ShiftX: twoDec(400000), ShiftY: twoDec(400000)} }, grid.Spec{Name: "NetherlandsRDNewQuad"}, []int{9, 10, 11, 12}},
-			{"dyadic", func() grid.Spec { oy := twoDec(9000); return grid.Spec{Depth: 4, Cell: 16, Origin: twoDec(9000), OriginY: &oy} }, dy(4, 16, 0), []int{0, 1, 2}},
+			{"rd", func() grid.Spec {
+				return grid.Spec{Name: "NetherlandsRDNewQuad", ShiftX: twoDec(400000), ShiftY: twoDec(400000)}
+			}, grid.Spec{Name: "NetherlandsRDNewQuad"}, []int{9, 10, 11, 12}},
+			{"dyadic", func() grid.Spec {
+				oy := twoDec(9000)
+				return grid.Spec{Depth: 4, Cell: 16, Origin: twoDec(9000), OriginY: &oy}
+			}, dy(4, 16, 0), []int{0, 1, 2}},
 		}
 		for _, k := range kinds {
 			ref, err := getSet(k.base)
@@ -179,7 +185,8 @@ type Profile struct {
 	RoundOnly bool // only grids whose extent divides evenly at the deepest requested level
 	AllIDs    bool // request the whole window instead of a random subset
 	NoBig     bool // never draw the large generator
-	Huge      bool // draw the huge generator (sheet with hundreds of holes) in 1 of 8000 cases
+	Huge      bool // draw the huge generator (sheet with hundreds of holes, or the zipper) in 1 of HugeRate (default 8000) cases
+	HugeRate  int
 	MinIDs    int
 	Zoo       bool // 1 case in 6 on a set of gridZoo()
 	TileWidth bool // 1 case in 15 on a set with a tile width that is not a power of two
@@ -193,13 +200,17 @@ func countSet(rec *fw.Recorder, sc *SnapCase) {
 	if cls, ok := zooClass[k]; ok {
 		rec.Count("grid-class:" + cls)
 	}
+	switch sc.Kind {
+	case "huge", "zipper", "big", "nest", "moat":
+		rec.Count("kind:" + sc.Kind)
+	}
 	if sc.TMS.Name == "" && sc.TMS.TileWidth&(sc.TMS.TileWidth-1) != 0 {
 		rec.Count("grid-class:tile-width-not-a-power-of-two")
 	}
 }
 
-var validKinds = []string{"star", "star", "comb", "sliver", "angle", "rectholes", "spiky", "spiky", "grow", "grow", "border", "angle", "moat"}
-var allKinds = []string{"star", "comb", "sliver", "angle", "rectholes", "spiky", "grow", "junk", "junk", "motif", "motif", "border", "moat"}
+var validKinds = []string{"star", "star", "comb", "sliver", "angle", "rectholes", "spiky", "spiky", "grow", "grow", "border", "angle", "moat", "nest"}
+var allKinds = []string{"star", "comb", "sliver", "angle", "rectholes", "spiky", "grow", "junk", "junk", "motif", "motif", "border", "moat", "nest"}
 
 // genSnapCase draws one case; returns nil (and the reason) when the draw has to be skipped.
 func genSnapCase(rng *fw.Rng, pr *Profile) (*SnapCase, string) {
@@ -262,8 +273,15 @@ func genSnapCase(rng *fw.Rng, pr *Profile) (*SnapCase, string) {
 	if !pr.NoBig && rng.Chance(1, 40) {
 		kind = "big" // structured / large inputs at a low rate (they cost 50-500x a small case)
 	}
-	if pr.Huge && rng.Chance(1, 8000) {
+	hugeRate := 8000
+	if pr.HugeRate > 0 {
+		hugeRate = pr.HugeRate
+	}
+	if pr.Huge && rng.Chance(1, hugeRate) {
 		kind = "huge" // thousands of vertices, hundreds of rings: a handful per run
+		if rng.Bool() {
+			kind = "zipper" // thousands of vertices in two rings
+		}
 	}
 	W := int64(12 + rng.Intn(40))
 	var lp gen.Poly
@@ -399,6 +417,22 @@ type Obs struct {
 }
 
 const centreTol = 64
+
+// offCentre: is the integer image of a returned coordinate farther from the pixel centre than the float64 round trip explains?
+// 64 units up to |ordinate| = 2^58 units (all built-in sets); beyond that (sets far from the CRS origin) two ulps of the ordinate.
+func offCentre(cc, ip P) bool {
+	for ax := 0; ax < 2; ax++ {
+		tol := int64(centreTol)
+		v := math.Abs(float64(cc[ax]))
+		if u := int64(2 * (math.Nextafter(v, math.Inf(1)) - v)); u > tol {
+			tol = u
+		}
+		if d := cc[ax] - ip[ax]; d > tol || d < -tol {
+			return true
+		}
+	}
+	return false
+}
 
 // observe runs texel on the case and prepares the oracle facts.
 func observe(c *SnapCase) (*Obs, error) { return observeBudget(c, nil) }
@@ -627,7 +661,7 @@ func (o *Obs) Level(z int) *LevelObs {
 					ip := grid.FromFloatPoint(p)
 					kx, ky := l.G.PixOf(ip)
 					cc := l.G.Centre(kx, ky)
-					if d0, d1 := cc[0]-ip[0], cc[1]-ip[1]; d0 > centreTol || d0 < -centreTol || d1 > centreTol || d1 < -centreTol {
+					if offCentre(cc, ip) {
 						l.OffCentre = append(l.OffCentre, fmt.Sprintf("%v (int %v) is not the centre %v of its pixel %v", p, ip, cc, PixKey{kx, ky}))
 					}
 					ks = append(ks, PixKey{kx, ky})
